@@ -4,10 +4,20 @@ Lean: ZI/Props/C18.lean.  Tie: every generated function is built for real; the f
 to the model (`fromFunction` over the code layout) and the model's description and rendered string are compared with
 zope.interface's, on both twins.  Functions that share a code object but differ in their defaults are described one after
 the other.  Oracle: `inspect.signature` of the same callable (names in order, required / defaulted split, defaults,
-* and ** names, rendered string); function attributes must come back as tagged values."""
+* and ** names, rendered string); function attributes must come back as tagged values.
+
+Default VALUES: the statement is about every function, so the defaults are also drawn from a pool of value kinds
+(`layers/method.VALUE_KINDS`: falsy and ordinary atoms, strings made of the characters the rendering uses, containers,
+tuples of every length and tuple subclasses, objects with a repr of their own) -- every kind is swept through every way
+of describing a function and every position among the defaults, then mixed at random.  The model is handed `repr` of
+each default with its id (its `reprOf`), the oracle renders `name=repr(default)` from `inspect.signature`; the reported
+defaults must be the function's own objects, and str() / repr() of the description and `asStructuredText` of the
+interface must carry the same rendered signature."""
 import itertools
+import re
 
 from .. import core, runner
+from ..layers.method import VALUE_KINDS
 
 THEOREMS = ["ZI.Method.C18_info", "ZI.Method.C18_method", "ZI.Method.C18_method_star", "ZI.Method.C18_string",
             "ZI.Method.C18_pinned_violates", "ZI.Method.C18_kwonlyFixed_violates"]
@@ -29,6 +39,35 @@ def gen_lines(rnd, tier):
                 kwd = "-" if not kwonly else "".join(rnd.choice("01") for _ in range(kwonly))
                 first += 7
                 L.append("fn %d %d %d %d %d %d %s %d %s %d" % (posonly, pos, va, kwonly, kw, nloc, kind, ndef, kwd, first))
+    # default VALUES: every value kind x every way of describing x {the only default, first, middle, last of several,
+    # every default}, the other defaults opaque or drawn at random; the shape around them rotates
+    names = list(VALUE_KINDS)
+    shapes = [(0, 1, 0, 0, 0, 0), (1, 2, 1, 0, 1, 0), (2, 1, 0, 1, 1, 2), (0, 3, 1, 2, 0, 0), (1, 0, 0, 0, 1, 0), (0, 2, 0, 0, 0, 2),
+              (2, 2, 1, 1, 1, 0), (0, 4, 0, 1, 0, 0)]
+    n = 0
+    for vi, v in enumerate(names):
+        for kind in "FMI":
+            posonly, pos, va, kwonly, kw, nloc = shapes[(vi + n) % len(shapes)]
+            n += 1
+            npos = posonly + pos                       # parameters that can carry a default (self excluded)
+            place = (vi + "FMI".index(kind)) % 5
+            ndef = 1 if place == 0 else rnd.randint(1, npos)
+            at = {0: 0, 1: 0, 2: ndef // 2, 3: ndef - 1}.get(place)
+            vals = [v if (at is None or i == at) else rnd.choice(["D", "D", rnd.choice(names)]) for i in range(ndef)]
+            kwd = "-" if not kwonly else "".join(rnd.choice("01") for _ in range(kwonly))
+            first += 7
+            L.append("fn %d %d %d %d %d %d %s %d %s %d %s" % (posonly, pos, va, kwonly, kw, nloc, kind, ndef, kwd, first, ",".join(vals)))
+    for _ in range(150 if tier == "quick" else 8000):
+        posonly, pos, va, kwonly, kw, nloc = rnd.randint(0, 3), rnd.randint(0, 4), rnd.randint(0, 1), rnd.randint(0, 2), rnd.randint(0, 1), rnd.choice((0, 0, 2))
+        kind = rnd.choice("FMI")
+        total = posonly + pos + (1 if kind == "M" else 0)
+        if not total:
+            continue
+        ndef = rnd.randint(1, total)                   # for a bound method this may include a default for `self` itself
+        vals = [rnd.choice(names) if rnd.random() < 0.8 else "D" for i in range(ndef)]
+        kwd = "-" if not kwonly else "".join(rnd.choice("01") for _ in range(kwonly))
+        first += 7
+        L.append("fn %d %d %d %d %d %d %s %d %s %d %s" % (posonly, pos, va, kwonly, kw, nloc, kind, ndef, kwd, first, ",".join(vals)))
     if tier == "thorough":
         for _ in range(30000):
             posonly, pos, va, kwonly, kw, nloc = rnd.randint(0, 4), rnd.randint(0, 6), rnd.randint(0, 1), rnd.randint(0, 4), rnd.randint(0, 1), rnd.randint(0, 3)
@@ -39,6 +78,9 @@ def gen_lines(rnd, tier):
             first += 7
             L.append("fn %d %d %d %d %d %d %s %d %s %d" % (posonly, pos, va, kwonly, kw, nloc, kind, ndef, kwd, first))
     return L
+
+
+FLAGS = re.compile(" (?:TAGS-WRONG|DEFAULTS-NOT-IDENTICAL|STR-WRONG|DOC-WRONG)")
 
 
 class _Null:
@@ -60,14 +102,28 @@ def judge(chk, lines, outs):
             continue
         got, _, ins = p
         chk.count("descriptions_judged")
+        f = l.split()
+        vals = [v for v in f[11].split(",") if v != "D"] if len(f) > 11 and f[11] != "-" else []
+        if vals:
+            chk.count("descriptions_with_valued_defaults")
+            chk.count("valued_defaults_described_as_%s" % f[7])
+            for v in vals:
+                chk.count("default_values_of_class_%s" % VALUE_KINDS[v][0])
+                getattr(chk, "kinds_seen", set()).add(v)
+            if len(vals) > 1:
+                chk.count("descriptions_with_several_valued_defaults")
         if "TAGS-WRONG" in got:
             bad.append((i, "%s: function attributes did not become tagged values: %s" % (l, got)))
             continue
-        f = l.split()
         if int(f[4]) and (int(f[3]) or int(f[5])):
             chk.count("kwonly_with_star_or_dstar")
-        if got != ins:
-            bad.append((i, "%s: getSignatureInfo/String says [%s], inspect.signature says [%s]" % (l, got, ins)))
+        core_ = FLAGS.split(got)[0]
+        if core_ != ins:
+            bad.append((i, "%s: getSignatureInfo/String says [%s], inspect.signature says [%s]" % (l, core_, ins)))
+        elif "DEFAULTS-NOT-IDENTICAL" in got:
+            bad.append((i, "%s: the defaults getSignatureInfo reports are not the function's own default objects: %s" % (l, got)))
+        elif "STR-WRONG" in got or "DOC-WRONG" in got:
+            bad.append((i, "%s: str() / repr() of the description or asStructuredText of its interface does not carry the rendered signature: %s" % (l, got)))
     return bad
 
 
@@ -76,6 +132,7 @@ def check(tier):
     chk.obligations(THEOREMS)
     rnd = core.rng("C18")
     lines = gen_lines(rnd, tier)
+    chk.kinds_seen = set()
     divs, fails = [], []
     for m in ("c", "py"):
         try:
@@ -88,7 +145,7 @@ def check(tier):
         idx = [i for i, o in enumerate(out) if split3(o)]
         model = core.run_model("method", [split3(out[i])[1] for i in idx])
         for i, mo in zip(idx, model):
-            got = split3(out[i])[0].split(" TAGS-WRONG")[0]
+            got = FLAGS.split(split3(out[i])[0])[0]
             if got != mo:
                 if len(divs) < 5:
                     divs.append(dict(mode=m, index=i, line=lines[i] + "   [" + split3(out[i])[1] + "]", impl=got, model=mo, script=[lines[i]], label="method"))
@@ -106,11 +163,16 @@ def check(tier):
         runner.report_divergences(chk, divs, "method-description correspondence (ZI.Method.fromFunction / sigString vs interface.py fromFunction / fromMethod / getSignatureString); theorems C18_info, C18_string",
                                   "inspect.signature oracle accepted all %d descriptions" % chk.counters.get("descriptions_judged", 0))
         core.lean_failure_violation(chk)
+    chk.counters["distinct_default_value_kinds_described"] = len(chk.kinds_seen)
+    chk.counters["default_value_kinds_in_pool"] = len(VALUE_KINDS)
     chk.samples.extend([lines[3], lines[len(lines) // 2], lines[-1]])
     return chk.finish(len(lines) * 2, chk.counters.get("kwonly_with_star_or_dstar", 0),
                       "COMPLETE product posonly 0-2 x positional 0-3 x *args? x keyword-only 0-2 (random default pattern) x **kw? x locals {0,2} x "
                       "{function, bound method, bound method whose self is absorbed by *args, interface method definition} x default counts {0, 1, half, all-but-self, all}; "
-                      "functions share code objects and differ in defaults; model fed the real code objects' fields; distinct_nontrivial = descriptions of "
+                      "functions share code objects and differ in defaults; PLUS default values: every value kind of the pool (atoms incl. falsy ones, strings of "
+                      "rendering characters, containers, tuples of length 0/1/2+/nested and tuple subclasses, objects with their own repr) x {function, bound method, "
+                      "interface definition} x {only / first / middle / last / every default} and random mixtures, rendered via repr by model (reprOf) and oracle; "
+                      "model fed the real code objects' fields; distinct_nontrivial = descriptions of "
                       "functions having keyword-only parameters together with *args or **kw (where the index arithmetic matters)")
 
 
